@@ -243,3 +243,107 @@ def socks_replies(p: int, op: int, n: int, a: int, b: int, c: int) -> None:
         pool = scen.make_pool(is_async, net, proxy=httpcore.Proxy("socks5://proxy.test:1080", auth=(b"u", b"p")))
         _run(pool, scen.Api(is_async), "http://example.com/x", "socks",
              (httpcore.RemoteProtocolError, httpcore.ProxyError, httpcore.ReadError, httpcore.WriteError))
+
+
+def _fr(ftype: int, flags: int, sid: int, payload: bytes) -> bytes:
+    return len(payload).to_bytes(3, "big") + bytes([ftype, flags]) + sid.to_bytes(4, "big") + payload
+
+
+def _bad_frames() -> tuple[tuple[str, bytes], ...]:
+    """Frames that are not valid HTTP/2 at connection level (each makes the h2 library raise a ProtocolError subclass)."""
+    return (
+        ("data-on-stream-0", _fr(0, 0, 0, b"x")),
+        ("window-update-of-zero", _fr(8, 0, 0, b"\x00\x00\x00\x00")),
+        ("window-update-short", _fr(8, 0, 0, b"\x00\x00\x01")),
+        ("settings-enable-push-2", _fr(4, 0, 0, b"\x00\x02\x00\x00\x00\x02")),
+        ("headers-bad-hpack-index", _fr(1, 4, 99, b"\xff\x80\x01")),
+        ("data-on-idle-stream", _fr(0, 0, 99, b"x")),
+        ("unexpected-continuation", _fr(9, 4, 3, b"\x88")),
+    )
+
+
+class _SiblingScript:
+    """Collects the concurrent requests; whenever every client task is blocked
+    it takes the next step: response heads for the first `heads` streams (so
+    those callers are then reading their bodies), then the bad frame, then the
+    peer closes."""
+
+    def __init__(self, expect: int, heads: int, bad: bytes) -> None:
+        self.expect, self.heads, self.bad = expect, heads, bad
+        self.arrived: list[int] = []
+        self.srv: H2Server | None = None
+        self.step = 0
+
+    def on_request(self, srv: H2Server, sid: int) -> None:
+        if sid == 1:
+            srv.respond(sid)  # warm-up
+            return
+        self.srv = srv
+        self.arrived.append(sid)
+
+    def release(self, sock: typing.Any) -> bool:
+        srv = self.srv
+        if srv is None or len(self.arrived) < self.expect or self.step >= 2:
+            return False
+        if self.step == 0:
+            for sid in self.arrived[: self.heads]:
+                srv.conn.send_headers(sid, [(b":status", b"200"), (b"x-token", srv.path(sid))])
+                srv.conn.send_data(sid, b"tok")
+            srv.flush()
+        else:
+            srv.out += self.bad
+            srv.closed = True
+        self.step += 1
+        sock.pump()
+        return True
+
+
+@harness("C15", "h2_siblings",
+         quick=[{}],
+         example=dict(bad=0, heads=1, d0=0, c0=0),
+         require=("raised", "sibling-reading-its-body", "sibling-waiting-for-its-head"),
+         timeout={"quick": 300, "thorough": 900},
+         symbolic="which invalid frame the server sends (7 kinds: DATA on stream 0 / on an idle stream, WINDOW_UPDATE of 0 / of wrong length, SETTINGS with an illegal value, HEADERS with an undefined HPACK index, a stray CONTINUATION); how many of the two concurrent callers already have their response head (0..2); one deviation from the FIFO schedule",
+         bounds="two concurrent requests sharing one HTTP/2 connection after a warm-up request; one invalid frame, then the peer closes",
+         outside="more than two streams; invalid frames outside the seven kinds (single-stream mutations: C15.h2_frames)",
+         stubs=("h2 native on both sides; frames built with hyperframe", "the server acts whenever every client task is blocked"))
+def h2_siblings(bad: int, heads: int, d0: int, c0: int) -> None:
+    """
+    pre: 0 <= bad <= 6 and 0 <= heads <= 2 and 0 <= d0 <= 12 and 0 <= c0 <= 1
+    post: _
+    """
+    if (d0 == 0) != (c0 == 0):
+        return
+    bi, hd, dd, cc = ladder(bad, 0, 6), ladder(heads, 0, 2), ladder(d0, 0, 12), ladder(c0, 0, 1)
+    with concrete(bi, hd, dd, cc):
+        from .common import Setup
+        from .conc import Caller, run_callers
+
+        name, frame = _bad_frames()[bi]
+        script = _SiblingScript(2, hd, frame)
+        su = Setup("h2prior", True, max_connections=1, h2_policy=script)
+        w = su.api.request(su.pool, "GET", su.url("warm"), extensions={"timeout": {"pool": 0, "read": 50}})
+        if not P.check(w.ok, "warm-up-ok", lambda: f"exc:h2-siblings:warmup:{w.kind()}"):
+            return
+        rt = vrt.new_runtime(clock=5)
+        vrt.RT.phase = su._phase
+        rt.on_idle = lambda: bool(su.net.socks) and script.release(su.net.socks[0])
+        callers = [Caller(f"s{i}", su.url(f"s{i}"), f"s{i}".encode()) for i in range(2)]
+        run_callers(su, callers, [(dd, cc)] if dd else [])
+        P.reached()
+        P.note(bad=name, heads=hd, dev=(dd, cc), outcomes=[(c.name, c.status, type(c.exc).__name__ if c.exc else None) for c in callers])
+        P.check(not rt.deadlocked, "call-terminates-once-input-has-ended", f"exc:h2-siblings:{name}:hang")
+        if hd >= 1:
+            P.cover("sibling-reading-its-body")
+        if hd <= 1:
+            P.cover("sibling-waiting-for-its-head")
+        for c in callers:
+            if c.exc is None:
+                continue
+            P.cover("raised")
+            o = scen.Outcome(exc=c.exc)
+            stage = "body" if c.status is not None else "head"
+            P.check(o.documented(), "documented-exception-type", lambda: f"exc:h2-siblings:{name}:{stage}:{o.kind()}")
+            if o.documented():
+                P.check(isinstance(c.exc, httpcore.RemoteProtocolError), "class-matches-the-cause(peer data)",
+                        lambda: f"exc:h2-siblings:{name}:{stage}:wrong-class:{o.kind()}")
